@@ -123,7 +123,9 @@ class C12(PropCheck):
                 key[1] = key[0] // 2               # idents 2k and 2k+1 have equal content
                 tag = rng.choice(["set", "set", "get", "del", "pop", "popdefault", "setdefault", "contains", "len", "keys",
                                   "popitem", "clear"] if rng.random() < 0.9 else ["clear"])
-                if tag in ("set", "setdefault", "popdefault"):
+                if tag == "popdefault":
+                    ops.append([tag, key, None if rng.random() < 0.4 else rng.randrange(100)])
+                elif tag in ("set", "setdefault"):
                     ops.append([tag, key, rng.randrange(100)])
                 elif tag in ("len", "keys", "popitem", "clear"):
                     ops.append([tag])
@@ -263,6 +265,34 @@ class C12(PropCheck):
             want.append(mine[-1] if mine else 0)
         if res != want:
             self._oracle = f"dispatch results {res}, expected (latest registration per identical code object) {want}"
+        # every way of naming a nested function registers on that nested function's code object
+        nsrc = "def outer():\n    def inner():\n        def innermost():\n            return 0\n        return innermost\n    return inner\n"
+        for form in ("func+names", "code+names", "code+names+kw", "deco+code+names", "inner-code"):
+            ns2: Dict[str, Any] = {}
+            exec(compile(nsrc, "<nest>", "exec"), ns2)
+            outer = ns2["outer"]
+            inner = outer()
+            innermost = inner()
+
+            @code_dispatch(lambda fn: fn.__code__)
+            def disp2(fn):
+                return "default"
+
+            impl = lambda fn: "hit"
+            if form == "func+names":
+                disp2.register(outer, "inner", "innermost", impl)
+            elif form == "code+names":
+                disp2.register(outer.__code__, "inner", "innermost", impl)
+            elif form == "code+names+kw":
+                disp2.register(outer.__code__, "inner", "innermost", func=impl)
+            elif form == "deco+code+names":
+                disp2.register(outer.__code__, "inner", "innermost")(impl)
+            else:
+                disp2.register(inner.__code__, "innermost", impl)
+            got = [disp2(outer), disp2(inner), disp2(innermost)]
+            if got != ["default", "default", "hit"]:
+                self._oracle = (f"register({form}) of outer -> inner -> innermost: dispatch on (outer, inner, innermost) gives {got}, "
+                                f"expected the hook on innermost only")
         return " ".join(str(r) for r in res)
 
     def run_customize(self, case):
